@@ -69,8 +69,10 @@ def script(case):
         L.append("_ev('hdrdir', %r, install(header_directory('include', "
                  "include='**/*.h')%s))" % (dirargs[4], d(4)))
     if items[5]:
+        # (compressed - a generated file in the build directory - whenever
+        # the case also installs the executable)
         L.append("_ev('man', %r, install(man_page('man/prog.1', "
-                 "compress=False)%s))" % (dirargs[5], d(5)))
+                 "compress=%s)%s))" % (dirargs[5], bool(items[0]), d(5)))
     if items[6]:
         sub = '/'.join(['myapp'] + dirargs[6])
         L.append("_ev('data', %r, install(generic_file('data.txt'), "
@@ -148,6 +150,12 @@ def run_case(case):
                       'ret': [{'root': r, 'comps': c} for r, c in e['ret']],
                       'files': hfiles if e['kind'] == 'hdrdir' else [],
                       'deps': []}
+                # documented leaf below the kind's directory (+ directory=):
+                # manN/<basename>[.gz], the basename of a source-tree file
+                ev['leaf'] = {'man': ['man1', 'prog.1.gz' if case['items'][0]
+                                      else 'prog.1'],
+                              'header': ['single.h'],
+                              'data': ['data.txt']}.get(e['kind'], [])
                 if e['kind'] == 'data':
                     ev['dirarg'] = e['dirarg']
                 if e['kind'] == 'exe':
@@ -169,7 +177,7 @@ def run_case(case):
                 events.append(ev)
         if case['items'][7] and not (case['items'][2] and
                                      case['dirargs'][2]):
-            events.append({'ev': 'Item', 'kind': 'pc', 'dirarg': [],
+            events.append({'ev': 'Item', 'kind': 'pc', 'dirarg': [], 'leaf': [],
                            'ret': [{'root': 'libdir', 'comps':
                                     ['pkgconfig', 'mypkg.pc']}],
                            'files': [], 'deps': [
